@@ -14,7 +14,11 @@ package dawn
 //   generated_path_escapes_root / source_path_escapes_root : an accepted path resolved to a location that is not the
 //       root or below it (element-wise, filepath.Rel);
 //   escaping_path_accepted : a relative path whose plain resolution <root>/<pkgdir>/<path> lies outside the root was
-//       accepted at all.
+//       accepted at all;
+//   entry_crashes_generates / entry_crashes_sources : target() or Load panicked on the entry (an entry is either
+//       resolved inside the root or rejected with an error, never a crash).  A `begin` line is flushed before every
+//       entry, so that a crash the harness cannot recover from (a panic in a goroutine of Load, a fatal error) still
+//       names the entry: the check reports the last `begin` without an outcome.
 // Every outcome is also written as a `site` case and recomputed by the Coq model (site_gen / site_src).
 
 import (
@@ -243,13 +247,22 @@ func TestVerifC12Sites(t *testing.T) {
 	pkgs := []string{"//", "//s", "//s/t"}
 
 	record := func(kind, root, pkg, g string, resolve func(param string) (string, string)) {
+		line("begin", c12hx(root), c12hx(pkg), c12hx(g))
+		w.Flush()
 		gp, go_ := resolve("generates")
 		sp, so := resolve("sources")
+		if go_ == "panic" {
+			line("ORACLE", "entry_crashes_generates", c12hx(root), c12hx(pkg), c12hx(g), c12hx(gp))
+		}
+		if so == "panic" {
+			line("ORACLE", "entry_crashes_sources", c12hx(root), c12hx(pkg), c12hx(g), c12hx(sp))
+		}
 		if go_ == "panic" || so == "panic" {
-			line(kind, c12hx(root), c12hx(pkg), c12hx(g), "panic", c12hx(gp), c12hx(sp))
+			line("end")
 			return
 		}
 		line(kind, c12hx(root), c12hx(pkg), c12hx(g), go_, c12hx(gp), so, c12hx(sp))
+		defer line("end")
 		if go_ == "ok" && !c12inside(root, gp) {
 			line("ORACLE", "generated_path_escapes_root", c12hx(root), c12hx(pkg), c12hx(g), c12hx(gp))
 		}
@@ -305,24 +318,24 @@ func TestVerifC12Sites(t *testing.T) {
 				record("site", root, pkg, g, func(param string) (string, string) { return site.call(pkg, param, g) })
 			}
 		}
-		// the same question end to end (BUILD.dawn on disk -> Load -> Target) for a seeded sample
+		// the same question end to end (BUILD.dawn on disk -> Load -> Target): every single-component entry from
+		// every package (enumerated: holds the entries that name the root or a package directory itself), then a
+		// seeded sample of the rest
+		type e2e struct{ pkg, g string }
+		var loads []e2e
+		c12seqs(vocab, 1, func(comps []string) {
+			for _, pkg := range pkgs {
+				loads = append(loads, e2e{pkg, comps[0]}, e2e{pkg, "/" + comps[0]})
+			}
+		})
 		for i := 0; i < nload; i++ {
-			g := all[rng.Intn(len(all))]
-			pkg := pkgs[rng.Intn(len(pkgs))]
+			loads = append(loads, e2e{pkgs[rng.Intn(len(pkgs))], all[rng.Intn(len(all))]})
+		}
+		for i, l := range loads {
+			g, pkg := l.g, l.pkg
 			dir := filepath.Join(tmp, "l", strconv.Itoa(si), strconv.Itoa(i), sh[0])
 			lroot := filepath.Join(dir, sh[1])
-			record("site", lroot, pkg, g, func(param string) (string, string) {
-				res, outcome := c12viaLoad(dir, sh[1], pkg, param, g)
-				if outcome == "panic" && param == "generates" {
-					// Outside C12's statement, noted only: a generated path that IS the root makes Project.link
-					// slice g[len(root)+1:] out of range.  Recognised by the call-site result, not by the message.
-					if p, o := site.call(pkg, param, g); o == "ok" && p == root {
-						line("linkpanic", c12hx(lroot), c12hx(pkg), c12hx(g), c12hx(res))
-						return lroot, "ok"
-					}
-				}
-				return res, outcome
-			})
+			record("site", lroot, pkg, g, func(param string) (string, string) { return c12viaLoad(dir, sh[1], pkg, param, g) })
 			os.RemoveAll(filepath.Join(tmp, "l", strconv.Itoa(si), strconv.Itoa(i)))
 		}
 	}
